@@ -185,4 +185,114 @@ theorem walkNth_sound : ∀ (ts : ZTys) (n : Nat) (b : Option Bytes), ts.plain =
     exact ⟨tm, by simpa [ZTys.toList] using h1, h2⟩
 end
 
+
+/-! ### completeness: a well-formed value never reaches a panic site of Walk -/
+
+
+theorem znext_nonempty {bs : Bytes} {v : Option Bytes} {r : Bytes} (h : znext bs = .ok (v, r)) : bs.isEmpty = false := by
+  cases bs with
+  | nil => simp [znext, readUvarint, readUvarintAux] at h
+  | cons a b => rfl
+
+theorem walkItems_of {f : Option Bytes → Except VErr Unit} : ∀ {l : List (Option Bytes)},
+    (∀ x ∈ l, f x = .ok ()) → walkItems f l = .ok ()
+  | [], _ => rfl
+  | a :: r, h => by
+    simp only [walkItems]
+    rw [h a (by simp)]
+    exact walkItems_of (fun x hx => h x (by simp [hx]))
+
+theorem walk_null : ∀ (t : ZTy), walk t none = .ok ()
+  | .prim _ => by simp [walk]
+  | .named _ t => by simp only [walk]; exact walk_null t
+  | .error t => by simp only [walk]; exact walk_null t
+  | .enum _ => by simp [walk]
+  | .set _ => by simp [walk]
+  | .record _ => by simp [walk]
+  | .array _ => by simp [walk]
+  | .map _ _ => by simp [walk]
+  | .union _ => by simp [walk]
+
+theorem walkPairs_of {wk wv : Option Bytes → Except VErr Unit} {k v : ZTy}
+    (hk : ∀ b, WellFormed k b → wk b = .ok ()) (hv : ∀ b, WellFormed v b → wv b = .ok ()) :
+    ∀ (l : List (Option Bytes)), PairsWF k v l → walkPairs wk wv l = .ok ()
+  | [], _ => rfl
+  | [_], h => by cases h
+  | a :: b :: r, h => by
+    cases h with
+    | cons ha hb hr =>
+      simp only [walkPairs]
+      rw [hk a ha]
+      simp only
+      rw [hv b hb]
+      exact walkPairs_of hk hv r hr
+
+mutual
+theorem walk_complete : ∀ (t : ZTy) (b : Option Bytes), t.plain = true → WellFormed t b → walk t b = .ok ()
+  | .prim id, b, _, _ => by simp [walk]
+  | .named n t, b, hp, h => by
+    simp only [ZTy.plain] at hp
+    cases h with
+    | null => exact walk_null _
+    | named _ h => simp only [walk]; exact walk_complete t b hp h
+  | .error t, b, hp, h => by
+    simp only [ZTy.plain] at hp
+    cases h with
+    | null => exact walk_null _
+    | error h => simp only [walk]; exact walk_complete t b hp h
+  | .enum _, _, hp, _ => by simp [ZTy.plain] at hp
+  | .set _, _, hp, _ => by simp [ZTy.plain] at hp
+  | .record fs, b, hp, h => by
+    simp only [ZTy.plain] at hp
+    cases h with
+    | null => exact walk_null _
+    | record hf => simp only [walk]; exact walkFields_complete fs _ hp hf
+  | .array e, b, hp, h => by
+    simp only [ZTy.plain] at hp
+    cases h with
+    | null => exact walk_null _
+    | array hit hall =>
+      simp only [walk, hit]
+      exact walkItems_of (fun x hx => walk_complete e x hp (hall x hx))
+  | .map k v, b, hp, h => by
+    simp only [ZTy.plain, Bool.and_eq_true] at hp
+    cases h with
+    | null => exact walk_null _
+    | map hit hpairs =>
+      simp only [walk, hit]
+      exact walkPairs_of (fun b hb => walk_complete k b hp.1 hb) (fun b hb => walk_complete v b hp.2 hb) _ hpairs
+  | .union ts, b, hp, h => by
+    simp only [ZTy.plain] at hp
+    cases h with
+    | null => exact walk_null _
+    | union h1 h2 hge hnth hw =>
+      rename_i body r1 tagB inner tm
+      have hlt : (decodeCountedVarint (tagB.getD [])).toNat < ts.toList.length := by
+        have := List.getElem?_eq_some_iff.mp hnth; exact this.1
+      have hrange : ¬ (decodeCountedVarint (tagB.getD []) < 0 ∨ decodeCountedVarint (tagB.getD []) ≥ Int.ofNat ts.toList.length) := by
+        simp only [Int.ofNat_eq_natCast]; omega
+      simp only [walk, znext_nonempty h1, Bool.false_eq_true, if_false, h1, h2, hrange, List.isEmpty_nil, Bool.not_true]
+      exact walkNth_complete ts _ inner tm hp hnth hw
+theorem walkFields_complete : ∀ (fs : ZFields) (body : Bytes), fs.plain = true → FieldsWF fs body → walkFields fs body = .ok ()
+  | .nil, _, _, _ => rfl
+  | .cons n t r, body, hp, h => by
+    simp only [ZFields.plain, Bool.and_eq_true] at hp
+    cases h with
+    | cons hn hw hr =>
+      simp only [walkFields, znext_nonempty hn, Bool.false_eq_true, if_false, hn]
+      rw [walk_complete t _ hp.1 hw]
+      exact walkFields_complete r _ hp.2 hr
+theorem walkNth_complete : ∀ (ts : ZTys) (n : Nat) (b : Option Bytes) (tm : ZTy), ts.plain = true →
+    ts.toList[n]? = some tm → WellFormed tm b → walkNth ts n b = .ok ()
+  | .nil, _, _, _, _, h, _ => by simp [ZTys.toList] at h
+  | .cons t _, 0, b, tm, hp, h, hw => by
+    simp only [ZTys.plain, Bool.and_eq_true] at hp
+    simp only [ZTys.toList, List.getElem?_cons_zero, Option.some.injEq] at h
+    subst h
+    simp only [walkNth]; exact walk_complete t b hp.1 hw
+  | .cons _ r, n + 1, b, tm, hp, h, hw => by
+    simp only [ZTys.plain, Bool.and_eq_true] at hp
+    simp only [ZTys.toList, List.getElem?_cons_succ] at h
+    simp only [walkNth]; exact walkNth_complete r n b tm hp.2 h hw
+end
 end Zed.Zng
